@@ -54,6 +54,7 @@ func (v *VMValue) ToJSONRaw(save map[*VMValue]bool) ([]byte, error) {
 			return nil, errors.New("值错误: 序列化时检测到循环引用")
 		}
 		save[v] = true
+		defer delete(save, v) // 只检测环(当前路径上的重复)，同一子值被多处引用并不是环
 		ad, _ := v.ReadArray()
 		lst := [][]byte{}
 		for _, i := range ad.List {
@@ -78,6 +79,7 @@ func (v *VMValue) ToJSONRaw(save map[*VMValue]bool) ([]byte, error) {
 			return nil, errors.New("值错误: 序列化时检测到循环引用")
 		}
 		save[v] = true
+		defer delete(save, v)
 		cd := v.MustReadDictData()
 
 		dictJson, err := cd.Dict.toJSONRaw(save)
